@@ -131,6 +131,7 @@ package aml
 //@   requires p != nil && wfR(rd(p))
 //@   modifies p.r.offset
 //@   ensures wfR(rd(p)) && sameStream(rd(p)) && p.r.pkgEnd == old(p.r.pkgEnd)
+//@   ensures res == parseResultOk || res == parseResultFailed
 //@   ensures failed: res != parseResultOk ==> op == 0xffff && p.r.offset == old(p.r.offset)
 //@   ensures one: res == parseResultOk && byteAt(p, old(p.r.offset)) != 0x5b ==> op == uint16(byteAt(p, old(p.r.offset))) && p.r.offset == old(p.r.offset) + 1
 //@   ensures two: res == parseResultOk && byteAt(p, old(p.r.offset)) == 0x5b ==> op == 0xff + uint16(byteAt(p, old(p.r.offset) + 1)) && p.r.offset == old(p.r.offset) + 2
@@ -683,3 +684,31 @@ package aml
 //@   at call SetOffset 1: assert skip: argType == pArgTypePkgLen && p.mode == parseModeSkipAmbiguousBlocks && info.flags&pOpFlagDeferParsing != 0 && curObj.pkgEnd == origOffset + pkgLen && arg(off) == curObj.pkgEnd
 //@   at call parseTarget 1: assert target: argType == pArgTypeTarget || argType == pArgTypeSimpleName || argType == pArgTypeSuperName || argType == 0 || argType > pArgTypeFieldList
 //@   ensures firstpass: (argType == pArgTypeTermArg || argType == pArgTypeDataRefObj) && old(p.mode) != parseModeAllBlocks ==> obj == nil && res == parseResultShortCircuit
+
+// parseNextObject (C11, partial): a Noop yields nothing; bytes that are no opcode are a name or
+// a method invocation; any other opcode becomes a fresh object carrying that opcode and the
+// offset it was read at, appended to the current scope BEFORE its arguments are parsed (so
+// lookups made while parsing them see it in place).
+//@ func (p *Parser) parseNextObject() (res parseResult)
+//@   property C11
+//@   partial
+//@   requires p != nil && wfR(rd(p))
+//@   modifies *
+//@   at call newObject 1: assert fresh: arg(opcode) == nextOp && nextOp != pOpNoop && res == parseResultOk && arg(tableHandle) == p.tableHandle
+//@   at call append 1: assert inScope: arg(arg) == curObj && curObj.opcode == nextOp && curObj.amlOffset == curOffset && curOffset == old(p.r.offset)
+//@   at call parseObjectArgs 1: assert args: arg(curObj) == curObj
+//@   at call parseNamePathOrMethodCall 1: assert name: res == parseResultFailed && p.r.offset == old(p.r.offset)
+
+// parseStrictTermArg (C11, partial): bytes that are no opcode are parsed as a name or method
+// invocation with curObj as the scope, and the object that parse appended to curObj is taken
+// off it again (the caller attaches the argument itself); an opcode becomes a fresh object
+// (detached, carrying the offset it was read at) whose arguments are parsed.
+//@ func (p *Parser) parseStrictTermArg(curObj *Object) (obj *Object, res parseResult)
+//@   property C11
+//@   partial
+//@   requires p != nil && curObj != nil && wfR(rd(p))
+//@   modifies *
+//@   at call scopeEnter 1: assert scope: arg(index) == curObj.index
+//@   at call detach 1: assert takeOff: arg(obj) == curObj && arg(arg) == termObj && res == parseResultOk
+//@   at call newObject 1: assert fresh: arg(opcode) == nextOp && arg(tableHandle) == p.tableHandle
+//@   at call parseObjectArgs 1: assert args: arg(curObj) == termObj && termObj.opcode == nextOp && termObj.amlOffset == curOffset && curOffset == old(p.r.offset)
